@@ -89,7 +89,11 @@ class AsyncRequest {
    * no underlying data.
    **/
   OpResult getUpdate() {
-    if (state_.load(std::memory_order_acquire) == kReady) {
+    // Claim the ready value with a CAS rather than a plain load: with several consumers, two callers
+    // could otherwise both observe kReady and both move from obj_ (a data race, and a second delivery
+    // of the same update).  kUpdating keeps producers and requesters out while we move the value.
+    RequestState state = kReady;
+    if (state_.compare_exchange_strong(state, kUpdating, std::memory_order_acq_rel)) {
       auto obj = std::move(obj_);
       state_.store(kNone, std::memory_order_release);
       return obj;
